@@ -38,6 +38,11 @@ type supSim struct {
 	alive    map[uint64]int // ghost: processes really running, pid -> spec name
 	args     map[uint64]int
 	exitSent map[uint64]string
+	loopLines []string // labels of the closed system, for the Lean driver `suploop`
+	loopObs   []string
+	bits      []bool // spawn decisions of the current callback
+	sentCount int
+	fixedGap  int64 // >= 0: use this clock advance for the next delivery
 	awaited   map[uint64]bool // targets of the most recent stop request of the restart strategy
 	dying     uint64
 	exitByAPI map[uint64]bool // the exit was requested by DisableChild (not by the restart strategy)
@@ -74,7 +79,7 @@ type supSim struct {
 
 func newSupSim(c *Ctx, g *Rng, cfg supCfg) *supSim {
 	s := &supSim{c: c, g: g, cfg: cfg, kids: map[uint64]int{}, alive: map[uint64]int{}, args: map[uint64]int{}, exitSent: map[uint64]string{}, exitByAPI: map[uint64]bool{},
-		nextPid: 100, restartFrom: -1, enabled: map[int]bool{}, sig: map[int]bool{}, lastExit: map[int]string{}, exposedD25: map[int]bool{}, failsKnown: true}
+		nextPid: 0, fixedGap: -1, restartFrom: -1, enabled: map[int]bool{}, sig: map[int]bool{}, lastExit: map[int]string{}, exposedD25: map[int]bool{}, failsKnown: true}
 	for _, ch := range cfg.Children {
 		s.order = append(s.order, ch.Name)
 		s.enabled[ch.Name] = true
@@ -191,7 +196,12 @@ func (s *supSim) handleAction(o supOut) string {
 					}
 				}
 			}
-			if taken || (s.spawnFailQ > 0 && s.g.Chance(1, s.spawnFailQ)) {
+			fail := false
+			if !taken {
+				fail = s.spawnFailQ > 0 && s.g.Chance(1, s.spawnFailQ)
+				s.bits = append(s.bits, !fail)
+			}
+			if taken || fail {
 				s.unreliable = true
 				s.c.R.Count("sim.spawn-failed")
 				return "spawnerr"
@@ -230,6 +240,7 @@ func (s *supSim) handleAction(o supOut) string {
 					s.awaited[p.ID] = true
 				}
 			}
+			s.sentCount += len(a.Terminate)
 			for _, p := range a.Terminate {
 				if _, ok := s.alive[p.ID]; ok {
 					if _, dup := s.exitSent[p.ID]; !dup {
@@ -277,6 +288,60 @@ func (s *supSim) terminate(reason string) {
 	}
 }
 
+// ---- the same history as labels of the Lean closed system ------------------------------
+
+func (s *supSim) loopState() string {
+	st := "running"
+	switch s.status {
+	case 1:
+		if s.final == "spawnerr" {
+			st = "spawnfailed"
+		} else {
+			st = "terminated:" + s.final
+		}
+	case 2:
+		st = "panicked"
+	}
+	pairs := func(m map[uint64]int) string {
+		if len(m) == 0 {
+			return "-"
+		}
+		ks := make([]uint64, 0, len(m))
+		for p := range m {
+			ks = append(ks, p)
+		}
+		sort.Slice(ks, func(i, j int) bool { return ks[i] < ks[j] })
+		ss := make([]string, len(ks))
+		for i, p := range ks {
+			ss[i] = fmt.Sprintf("%d:%d", p, m[p])
+		}
+		return strings.Join(ss, ",")
+	}
+	infl := "-"
+	if len(s.inflight) > 0 {
+		ss := make([]string, len(s.inflight))
+		for i, e := range s.inflight {
+			ss[i] = fmt.Sprintf("%d:%s", e.pid, e.reason)
+		}
+		infl = strings.Join(ss, ",")
+	}
+	return fmt.Sprintf("%s kids=%s alive=%s inflight=%s sent=%d next=%d | %s", st, pairs(s.kids), pairs(s.alive), infl, s.sentCount, s.nextPid+1, s.run.stateS())
+}
+func (s *supSim) bitsS() string {
+	if len(s.bits) == 0 {
+		return "-"
+	}
+	var sb strings.Builder
+	for _, b := range s.bits {
+		sb.WriteString(sb2s(b))
+	}
+	return sb.String()
+}
+func (s *supSim) logLabel(f string, a ...interface{}) {
+	s.loopLines = append(s.loopLines, fmt.Sprintf(f, a...))
+	s.loopObs = append(s.loopObs, s.loopState())
+}
+
 // ---- environment -------------------------------------------------------------------
 
 func (s *supSim) initRun() {
@@ -290,15 +355,18 @@ func (s *supSim) initRun() {
 		s.status = 1
 		s.final = err
 	}
+	s.loopLines = append(s.loopLines, "boot"+strings.TrimPrefix(s.run.lines[0], "new"))
+	s.loopObs = append(s.loopObs, s.loopState())
 }
 
 func (s *supSim) die(pid uint64, reason string) {
-	if _, ok := s.alive[pid]; !ok {
+	if _, ok := s.alive[pid]; !ok || s.status != 0 {
 		return
 	}
 	s.ev("died", s.alive[pid], pid, reason)
 	delete(s.alive, pid)
 	s.inflight = append(s.inflight, simExit{pid, reason})
+	s.logLabel("die %d %s", pid, reason)
 }
 
 func (s *supSim) gap() int64 {
@@ -350,10 +418,18 @@ func (s *supSim) deliver(i int) {
 	s.lastExit[name] = e.reason
 	s.handledDeaths++
 	s.inDispatch = true
-	o := s.run.terminated(name, e.pid, e.reason, s.gap())
+	s.bits = nil
+	gap := s.fixedGap
+	s.fixedGap = -1
+	if gap < 0 {
+		gap = s.gap()
+	}
+	o := s.run.terminated(name, e.pid, e.reason, gap)
+	now := s.run.lastNow
 	if o.Panicked {
 		s.inDispatch = false
 		s.panicked("childTerminated")
+		s.logLabel("deliver %d %d -", e.pid, now)
 		return
 	}
 	err := s.handleAction(o)
@@ -361,6 +437,7 @@ func (s *supSim) deliver(i int) {
 	if s.status == 0 && err != "" {
 		s.terminate(err)
 	}
+	s.logLabel("deliver %d %d %s", e.pid, now, s.bitsS())
 	// oracle-side: is a restart in progress (stopping phase)?  From the rules and the events only.
 	if s.countStarts() > nstart {
 		s.restartFrom = -1
@@ -384,14 +461,19 @@ func (s *supSim) foreign(reason string) {
 	if s.status != 0 {
 		return
 	}
-	s.ev("foreign", 0, 7, reason)
+	s.nextPid++
+	fpid := s.nextPid
+	s.ev("foreign", 0, fpid, reason)
 	s.sawForeign = true
 	s.spontaneous = true
 	s.inDispatch = true
-	o := s.run.terminated(0, 7, reason, s.gap())
+	s.bits = nil
+	o := s.run.terminated(0, fpid, reason, s.gap())
+	now := s.run.lastNow
 	if o.Panicked {
 		s.inDispatch = false
 		s.panicked("childTerminated")
+		s.logLabel("foreign %s %d -", reason, now)
 		return
 	}
 	err := s.handleAction(o)
@@ -399,6 +481,7 @@ func (s *supSim) foreign(reason string) {
 	if s.status == 0 && err != "" {
 		s.terminate(err)
 	}
+	s.logLabel("foreign %s %d %s", reason, now, s.bitsS())
 }
 
 func (s *supSim) api(op string, name int, arg int) {
@@ -439,14 +522,22 @@ func (s *supSim) api(op string, name int, arg int) {
 		res = supErrS(o.Err)
 	}
 	s.ev("api-"+op, name, 0, res)
+	s.bits = nil
 	if o.Panicked {
 		s.panicked(op)
-		return
+	} else if o.Err == nil {
+		s.handleAction(o) // the error, if any, goes back to the caller of the API
 	}
-	if o.Err != nil {
-		return
+	switch op {
+	case "start":
+		s.logLabel("start %d %d %s", name, arg, s.bitsS())
+	case "add":
+		s.logLabel("add %d %d %s", name, arg, s.bitsS())
+	case "enable":
+		s.logLabel("enable %d %s", name, s.bitsS())
+	case "disable":
+		s.logLabel("disable %d", name)
 	}
-	s.handleAction(o) // the error, if any, goes back to the caller of the API
 }
 
 func (s *supSim) settle() {
@@ -904,10 +995,11 @@ func kids3(sig bool) []supChildIn {
 	return []supChildIn{{1, false}, {2, sig}, {3, false}}
 }
 
-func supWitnesses(c *Ctx) []supSeq {
-	var out []supSeq
+func supWitnesses(c *Ctx) ([]supSeq, []supSeq) {
+	var out, outLoop []supSeq
 	add := func(tag string, s *supSim) {
 		out = append(out, supSeq{s.run.lines, s.run.obs, s.cfg, "witness " + tag})
+		outLoop = append(outLoop, supSeq{s.loopLines, s.loopObs, s.cfg, "witness " + tag})
 		c.R.Count("witness." + tag)
 		c.R.Case("witness/"+tag, true)
 	}
@@ -1008,7 +1100,7 @@ func supWitnesses(c *Ctx) []supSeq {
 		s.settle()
 		add("D27", s)
 	}
-	return out
+	return out, outLoop
 }
 
 // episodeSingle with a chosen victim
@@ -1029,29 +1121,8 @@ func (s *supSim) episodeSingleOn(name int, reason string, gap int64) {
 	}
 	ev0 := len(s.events)
 	s.die(pid, reason)
-	// deliver with a fixed gap
-	e := s.inflight[len(s.inflight)-1]
-	s.inflight = s.inflight[:len(s.inflight)-1]
-	nm := s.kids[e.pid]
-	delete(s.kids, e.pid)
-	s.lastExit[nm] = reason
-	s.spontaneous = true
-	if s.sig[nm] {
-		s.sigDied = true
-	}
-	s.handledDeaths++
-	s.inDispatch = true
-	o := s.run.terminated(nm, e.pid, reason, gap)
-	if o.Panicked {
-		s.inDispatch = false
-		s.panicked("childTerminated")
-		return
-	}
-	err := s.handleAction(o)
-	s.inDispatch = false
-	if s.status == 0 && err != "" {
-		s.terminate(err)
-	}
+	s.fixedGap = gap
+	s.deliver(len(s.inflight) - 1)
 	now := s.run.vt
 	s.settle()
 	cnt := s.windowCount(now)
@@ -1074,7 +1145,7 @@ func (s *supSim) episodeSingleOn(name int, reason string, gap int64) {
 func supGiveUp(c *Ctx) {
 	r := c.R
 	n := c.N(1500, 60000)
-	var seqs []supSeq
+	var seqs, loops []supSeq
 	for i := 0; i < n; i++ {
 		g := c.Rng.Fork()
 		cfg := supRandCfg(g)
@@ -1094,6 +1165,7 @@ func supGiveUp(c *Ctx) {
 			s.episodeSingle()
 		}
 		seqs = append(seqs, supSeq{s.run.lines, s.run.obs, cfg, "give-up"})
+		loops = append(loops, supSeq{s.loopLines, s.loopObs, cfg, "give-up"})
 		r.Case(fmt.Sprintf("gu/%v|%s", cfg, strings.Join(s.run.lines, ";")), s.status == 1 && s.final == "exceeded")
 		if s.status == 1 && s.final == "exceeded" {
 			r.Count("sup.gave-up." + cfg.Kind)
@@ -1105,6 +1177,7 @@ func supGiveUp(c *Ctx) {
 		}
 	}
 	supCompare(c, seqs, 12)
+	supCompareModel(c, "suploop", loops, 12)
 }
 
 var _ = act.ErrSupervisorRestartsExceeded
